@@ -3,8 +3,9 @@
 
    - FIRST / FOLLOW as computed by tables/__init__.py:846-931, the FIRST cache
      [grammar._first_sets] and the augmented production [grammar.productions[0].rhs]
-     that create_table (tables/__init__.py:139-417) rewrites while it builds a table
-     and restores only on its normal exit (no try/finally);
+     that _create_table rewrites while it builds a table; the wrapper create_table
+     (tables/__init__.py) saves it on entry and restores it in a finally clause, i.e. on
+     every exit;
    - Parser.__init__ (parser.py:73-164): LAYOUT sub-parser first, then the main table,
      then _check_parser;
    - the per-instance fields of Parser.parse (parser.py:320-340, 525-535) with default
@@ -131,7 +132,7 @@ Record gstate : Type := mkG {
 
 Inductive exn : Type :=
 | XGrammarError                 (* "First set empty ...": raised before the swap *)
-| XInterrupted                  (* an exception raised between swap and restore *)
+| XInterrupted                  (* an exception raised while the item sets are computed *)
 | XSRConflicts | XRRConflicts   (* raised by _check_parser, after create_table returned *)
 | XOutOfFuel.
 
@@ -199,7 +200,7 @@ Section Build.
               let old := gs_aug gs1 in
               let swapped := [NT (prod_lhs (b_start o) old); T (s_stop G)] in
               match core (all_prods swapped) o ft fo with
-              | CoreInterrupted => (mkG swapped (gs_first gs1), Raise XInterrupted)
+              | CoreInterrupted => (mkG old (gs_first gs1), Raise XInterrupted)   (* finally *)
               | CoreTable tb => (mkG old (gs_first gs1), Ok tb)
               end
           end
@@ -507,24 +508,6 @@ Section History.
     end.
 
   Definition run_history (w : world) (h : list op) : world := fold_left step_world h w.
-
-  (* no construction of the history was interrupted between swap and restore (and the
-     FIRST/FOLLOW iterations had enough fuel) *)
-  Definition build_clean (gs : gstate) (o : popts) : bool :=
-    match snd (parser_init G core sr_conflicts rr_conflicts gs o) with
-    | Raise XInterrupted | Raise XOutOfFuel => false
-    | _ => true
-    end.
-
-  Fixpoint history_clean (w : world) (h : list op) : bool :=
-    match h with
-    | [] => true
-    | o :: r =>
-        (match o with
-         | OBuild glr slr ps pse => build_clean (w_g w) (mkP glr slr ps pse)
-         | _ => true
-         end) && history_clean (step_world w o) r
-    end.
 
   (* what a user observes afterwards *)
   Definition probe_lr (w : world) (inp : pinput) (fuel : nat) (budget : option nat) (pos : N)
